@@ -729,13 +729,20 @@ func c15RunMixed(c *core.Ctx, k c15Case) *c15Out {
 		o.violate(fmt.Sprintf("C15/hang/%s-%s-end-after-%s-%s", map[string]string{"R": "read", "W": "write"}[wk.what], rel, k.Ender, tr),
 			"%s at the %s end of connection %d had not returned %d ms after %s; goroutines of the project: %s", wk.what, wk.end.side, wk.end.sess, c15BoundMs+c15PropMs, k.Ender, c15SigSummary())
 	}
+	// once the case has failed, later waits are cut short: the verdict is in, the rest is clean-up
+	bound := func() time.Duration {
+		if len(o.finds) > 0 {
+			return 3 * time.Second
+		}
+		return c15BoundMs * time.Millisecond
+	}
 	// a Close may be repeated
 	if strings.HasPrefix(k.Ender, "sclose") {
 		conn, side := cls[es], "c"
 		if k.Ender == "sclose-s" {
 			conn, side = svs[es], "s"
 		}
-		if left := waitChans(c15Closers(r, conn, side, es, 1), c15BoundMs*time.Millisecond); len(left) > 0 {
+		if left := waitChans(c15Closers(r, conn, side, es, 1), bound()); len(left) > 0 {
 			o.violate("C15/close-does-not-return/repeated-"+tr, "a second Close of the same connection had not returned after %d ms", c15BoundMs)
 		}
 	}
@@ -746,7 +753,7 @@ func c15RunMixed(c *core.Ctx, k c15Case) *c15Out {
 			conns = svs
 		}
 		for i, cn := range conns {
-			if left := waitChans(c15Closers(r, cn, side, i, 1), c15BoundMs*time.Millisecond); len(left) > 0 {
+			if left := waitChans(c15Closers(r, cn, side, i, 1), bound()); len(left) > 0 {
 				o.violate(fmt.Sprintf("C15/close-does-not-return/session-%s-after-%s-%s", side, k.Ender, tr), "Close of connection %d at the %s end had not returned after %d ms", i, side, c15BoundMs)
 			}
 		}
@@ -756,7 +763,7 @@ func c15RunMixed(c *core.Ctx, k c15Case) *c15Out {
 		if side == "s" {
 			m = w.Server
 		}
-		if left := waitChans(c15MuxClose(r, m, side, 1), c15BoundMs*time.Millisecond); len(left) > 0 {
+		if left := waitChans(c15MuxClose(r, m, side, 1), bound()); len(left) > 0 {
 			o.violate(fmt.Sprintf("C15/close-does-not-return/mux-%s-after-%s-%s", side, k.Ender, tr), "Mux.Close at the %s side had not returned after %d ms", side, c15BoundMs)
 		}
 	}
@@ -778,7 +785,7 @@ func c15RunMixed(c *core.Ctx, k c15Case) *c15Out {
 		chs = append(chs, wk.done)
 		idx = append(idx, i)
 	}
-	for _, j := range waitChans(chs, c15BoundMs*time.Millisecond) {
+	for _, j := range waitChans(chs, bound()) {
 		wk := workers[idx[j]]
 		o.violate(fmt.Sprintf("C15/hang/%s-%s-after-shutdown-%s", map[string]string{"R": "read", "W": "write"}[wk.what], wk.end.side, tr),
 			"%s at the %s end of connection %d had not returned %d ms after both ends were closed (ender %s)", wk.what, wk.end.side, wk.end.sess, c15BoundMs, k.Ender)
@@ -1013,11 +1020,21 @@ var (
 	c15ConfirmMu sync.Mutex // re-runs of suspicious cases happen one at a time
 	c15Reported  = map[string]bool{}
 	c15Confirms  int
+	c15Skipped   int
+	// the scenario stops starting new cases after this instant, so that a tree on which everything
+	// hangs (each hang costs tens of seconds) still produces its concrete replays in time
+	c15BudgetEnd = time.Now().Add(24 * time.Hour)
 )
 
 // c15Check runs one case; a verdict is reported only if it reproduces in 2 of 3 re-runs.
 func c15Check(c *core.Ctx, k c15Case) {
 	key, _ := json.Marshal(k)
+	if time.Now().After(c15BudgetEnd) {
+		c15ConfirmMu.Lock()
+		c15Skipped++
+		c15ConfirmMu.Unlock()
+		return
+	}
 	o := c15RunOnce(c, k)
 	if o.setupErr != nil {
 		c.Eval(string(key), false)
@@ -1056,9 +1073,24 @@ func c15Check(c *core.Ctx, k c15Case) {
 		c.Res.Discarded++
 		return
 	}
+	if time.Now().After(c15BudgetEnd) {
+		c.Note("C15: candidate not re-run, the time budget of the run is used up: %s; case %s", o.finds[0].key, key)
+		c.Res.Discarded++
+		return
+	}
 	c15Confirms++
 	again := map[string]int{}
 	for i := 0; i < 3; i++ {
+		// 2 of 3: the third re-run is needed only when the first two differ
+		best := 0
+		for _, f := range o.finds {
+			if again[f.key] > best {
+				best = again[f.key]
+			}
+		}
+		if i == 2 && (best >= 2 || best == 0) {
+			break
+		}
 		o2 := c15RunOnce(c, k)
 		seen := map[string]bool{}
 		for _, f := range o2.finds {
@@ -1286,6 +1318,11 @@ func init() {
 			c.Correspondence("c15-deadline: observed sequential deadline histories vs Mieru.Deadline.acceptAll (the code's readDeadline/writeDeadline/respDeadline)")
 			c.Correspondence("c15-closers: n concurrent Close calls vs the CAS-guarded closer model")
 			race := os.Getenv("VH_C15_RACE") != ""
+			if c.Thorough() {
+				c15BudgetEnd = time.Now().Add(45 * time.Minute)
+			} else {
+				c15BudgetEnd = time.Now().Add(9 * time.Minute)
+			}
 			if !race {
 				for _, k := range c15LoadCorpus(c) {
 					c15Check(c, k)
@@ -1336,6 +1373,10 @@ func init() {
 			}
 			core.Parallel(len(cases), workers, func(i int) { c15Check(c, cases[i]) })
 			bgClose.Wait(60 * time.Second)
+			if c15Skipped > 0 {
+				c.Note("C15: %d generated cases were not run: the time budget of the run was used up by cases that hang", c15Skipped)
+				c.Res.Discarded += c15Skipped
+			}
 			if !race {
 				// everything this run started is shut down: nothing of the project may be left
 				if left := c15WaitGone(map[string]int{}, 10*time.Second, ""); len(left) > 0 {
